@@ -183,7 +183,8 @@ impl<'this, 'de> std::iter::Iterator for DeserializerIterator<'this, 'de> {
     }
 
     fn size_hint(&self) -> (usize, Option<usize>) {
-        (self.deserializer.len, Some(self.deserializer.len))
+        let remaining = self.deserializer.len.saturating_sub(self.next);
+        (remaining, Some(remaining))
     }
 }
 
